@@ -14,7 +14,7 @@ RULE = ('pairs (file tree, runtime tree) over a 5-name space incl. look-alikes, 
         'non-trivial = distinct cases in which the append returned normally and the file changed')
 MODELLED = ['payload templates with content tokens', 'group paths as lists of names (the source computes them as strings; look-alike paths are generated on purpose)']
 ASSUMPTIONS = ['valid, sibling-distinct names; runtime trees well formed (C12)']
-NAMES = ['a', 'b', 'c', 'ab', 'd']
+NAMES = ['a', 'b', 'c', 'ab', 'd', '_tmp_a']      # '_tmp_a': the scratch name the replace step of append-over uses for a node called 'a'
 
 
 def small_tree(rng, rootname, n, md=True):
@@ -257,6 +257,14 @@ def oracle(case, obs):
         # invariants that hold whatever the branch: nothing already in the file is lost or changed in append mode
         ao = st['mode'] in ('ao', 'oa', 'o+', '+o', 'appendover')
         R = FA.runtime_map(rt)
+        # the replace step of append-over parks the old node under '_tmp_<name>': with a sibling of exactly that name the save is
+        # refused part-way (the one name clash the theorems exclude: compat_ao); what a refused append-over leaves is C18's subject
+        clash = ao and any(p and ('_tmp_' + p[-1]) in {q[-1] for q in list(F) + list(R) if q and q[:-1] == p[:-1]} for p in list(F) + list(R))
+        if clash and o['raised']:
+            if any(p not in after for p in F):
+                return {'key': 'existing-node-lost', 'what': where + ': a node disappeared in a refused append-over'}
+            F = after
+            continue
         for p, c in F.items():
             if p not in after:
                 return {'key': 'existing-node-lost', 'what': where + f': node /{"/".join(p)} disappeared'}
